@@ -90,14 +90,42 @@ func VerifC22DisasmActions() {
 // VerifC31Navigation: down/up/goto/entrypoint/find semantics.
 func VerifC31Navigation() {
 	entries := []model.Addr{rvprog.Base, rvprog.Base + 0x14}
-	entry := entries[sym.Choose(2)]
+	entry := entries[1]
+	if sym.Param("history", 0) == 0 {
+		entry = entries[sym.Choose(2)]
+	}
 	m, cmds := vMode(entry)
 	if m == nil {
 		return
 	}
+	if sym.Param("history", 0) == 1 {
+		// a history before the command under test: the entry point was visited
+		// once, then one (accepted or rejected) instruction or block move
+		sym.NoPanic(func() { _ = vCmd(cmds, "entrypoint").Action(nil) })
+		// block header lines and the first instruction line of every block
+		var cand []int
+		for i := 0; i < m.view.Lines.Len(); i++ {
+			l := m.view.Lines.Index(i)
+			_, isBlock := l.Block()
+			ii, isIns := l.Instruction()
+			if isBlock && (!isIns || ii == 0) {
+				cand = append(cand, i)
+			}
+		}
+		from, to := cand[sym.Choose(len(cand))], cand[sym.Choose(len(cand))]
+		var merr error
+		sym.NoPanic(func() { merr = vCmd(cmds, "move").Action(nil, from, to) })
+		if merr == nil {
+			sym.Reach("history-move-accepted")
+		}
+	}
 	n := m.view.Lines.Len()
 	cur := vSetCursor(m)
-	name := []string{"down", "up", "goto", "entrypoint", "find"}[sym.Choose(5)]
+	names := []string{"down", "up", "goto", "entrypoint", "find"}
+	if sym.Param("history", 0) == 1 {
+		names = []string{"entrypoint", "find"}
+	}
+	name := names[sym.Choose(len(names))]
 	cmd := vCmd(cmds, name)
 	arg := sym.Int("arg")
 	sym.Assume(arg >= 0)
@@ -137,6 +165,9 @@ func VerifC31Navigation() {
 	case "find":
 		// literal patterns: POSIX matching is substring containment
 		pats := []string{"addi x3", "jalr", "Block 2", "sd x3", "no such text"}
+		if sym.Param("history", 0) == 1 {
+			pats = pats[2:4]
+		}
 		pat := pats[sym.Choose(len(pats))]
 		sym.NoPanic(func() { err = cmd.Action(nil, pat) })
 		want := -1
